@@ -258,8 +258,12 @@ Cases(g) ==
       [] g = "extreme" -> CasesExtreme(g) [] g = "control" -> CasesControl(g) [] g = "cast" -> CasesCast(g) [] g = "nulls" -> CasesNull(g)
       [] OTHER -> {}
 
+(* "root" -> "pre:<g>" -> "<g>": the second level spreads the groups over the workers (a worker checks the invariants
+   of the successors it generates) *)
+Pre(g) == "pre:" \o g
 Init == st = "root"
-Next == st = "root" /\ \E g \in Groups \cup LawGroups : st' = g
+Next == \/ st = "root" /\ \E g \in Groups \cup LawGroups : st' = Pre(g)
+        \/ \E g \in Groups \cup LawGroups : st = Pre(g) /\ st' = g
 Spec == Init /\ [][Next]_st
 
 (* every case has at least one admissible result, and a named deviation is never itself admissible; then it is printed.
